@@ -1,13 +1,17 @@
 //! C05 — every cover constructor returns a genuine covering of the base symbol.
 //!
 //! Drives `derived::{cover, oriented_cover}` and `covers::{covers, subgroup_cover,
-//! finite_universal_cover}` on universes built by `dsgen` (independent of the library's
-//! generators).  For the table-based constructors the fundamental group's edge words and the
+//! finite_universal_cover, cover_for_table}` on universes built by `dsgen` (independent of the
+//! library's generators), with the base held as `PartialDSym` and as `SimpleDSym`, on the objects
+//! the library's own symbol generator yields, and on bases with several components.  For the table-based constructors the fundamental group's edge words and the
 //! coset table(s) the library computes are transmitted as part of the input, so the Lean
 //! model `coverForTable` can be compared exactly with the result.
-use rust_dsymbols::covers::{covers, finite_universal_cover, subgroup_cover};
+use rust_dsymbols::covers::{cover_for_table, covers, finite_universal_cover, subgroup_cover};
 use rust_dsymbols::derived::{cover, oriented_cover};
-use rust_dsymbols::dsyms::PartialDSym;
+use rust_dsymbols::dsets::DSet;
+use rust_dsymbols::dsyms::{PartialDSym, SimpleDSym};
+use rust_dsymbols::generators::dset_generators::DSets;
+use rust_dsymbols::generators::dsym_generators::{DSyms, Geometries};
 use rust_dsymbols::fpgroups::cosets::{coset_table, coset_tables, CosetTable};
 use rust_dsymbols::fpgroups::free_words::FreeWord;
 use rust_dsymbols::fundamental_group::{fundamental_group, FundamentalGroup};
@@ -18,6 +22,65 @@ use verif_harness::{enc_list, enc_lists, Ctx, Rng};
 
 fn enc_sym(ds: &PartialDSym) -> String {
     Tab::from_dsym(ds).enc()
+}
+
+// ---------------------------------------------------------------------------------
+// which implementation of the DSet/DSym traits holds the base symbol, and which kind of base
+
+/// `P`: the base as `PartialDSym` (built from our tables), `S`: the same converted into a
+/// `SimpleDSym`, `N`: an object the library produced itself (symbol generator), held as it came
+#[derive(Clone, Copy)]
+enum Rep<'a> {
+    P,
+    S,
+    N(&'a SimpleDSym),
+}
+
+/// `dc`: base with several components (ops `…_dc`); ops on `SimpleDSym` bases end in `_s`
+#[derive(Clone, Copy)]
+struct Kind<'a> {
+    dc: bool,
+    rep: Rep<'a>,
+}
+
+const PK: Kind<'static> = Kind { dc: false, rep: Rep::P };
+const SK: Kind<'static> = Kind { dc: false, rep: Rep::S };
+const DCP: Kind<'static> = Kind { dc: true, rep: Rep::P };
+const DCS: Kind<'static> = Kind { dc: true, rep: Rep::S };
+
+impl<'a> Kind<'a> {
+    fn op(&self, base: &str) -> String {
+        format!("{}{}{}", base, if self.dc { "_dc" } else { "" }, match self.rep { Rep::P => "", _ => "_s" })
+    }
+    fn tag(&self) -> &'static str {
+        match (self.dc, self.rep) {
+            (false, Rep::P) => "rep=partial",
+            (false, Rep::S) => "rep=simple",
+            (false, Rep::N(_)) => "rep=generated",
+            (true, Rep::P) => "rep=partial components=several",
+            (true, _) => "rep=simple components=several",
+        }
+    }
+}
+
+/// run `$body` with `$ds` bound to the base symbol in the representation `$kind.rep`
+macro_rules! on_sym {
+    ($t:expr, $kind:expr, |$ds:ident| $body:expr) => {
+        match $kind.rep {
+            Rep::P => {
+                let $ds = $t.to_partial_dsym();
+                $body
+            }
+            Rep::S => {
+                let $ds: SimpleDSym = $t.to_partial_dsym().into();
+                $body
+            }
+            Rep::N(x) => {
+                let $ds: SimpleDSym = x.clone();
+                $body
+            }
+        }
+    };
 }
 
 // ---------------------------------------------------------------------------------
@@ -79,13 +142,12 @@ fn enc_group(g: &FundamentalGroup, tables: &[CosetTable]) -> String {
 }
 
 /// `None` if the library panics while computing the group data
-fn group_data<F>(t: &Tab, tables: F) -> Option<String>
+fn group_data<F>(t: &Tab, kind: Kind, tables: F) -> Option<String>
 where
     F: FnOnce(&FundamentalGroup) -> Vec<CosetTable>,
 {
     catch_unwind(AssertUnwindSafe(|| {
-        let ds = t.to_partial_dsym();
-        let g = fundamental_group(&ds);
+        let g = on_sym!(t, kind, |ds| fundamental_group(&ds));
         let ts = tables(&g);
         enc_group(&g, &ts)
     }))
@@ -210,30 +272,60 @@ fn is_compatible(t: &Tab, n: usize, tab: &[usize]) -> bool {
     true
 }
 
-fn cover_case(ctx: &mut Ctx, t: &Tab, n: usize, tab: &[usize], tags: &str) {
+/// the premise of the degree clause of `cover`, computed here for the tag: in the symbol
+/// `op_i(k, b) = (tab(k, i, b), op_i b)` every (i,i+1)-orbit length divides the base degree
+fn premise_holds(t: &Tab, n: usize, tab: &[usize]) -> bool {
+    let step = |i: usize, (k, b): (usize, usize)| (tab[slot(t, k, i, b)], t.op[i][b]);
+    for i in 0..t.dim {
+        for k in 0..n {
+            for b in 1..=t.size {
+                let m = t.r(i, i + 1, b) * t.v[i][b];
+                let mut x = (k, b);
+                let mut r = 0;
+                loop {
+                    x = step(i + 1, step(i, x));
+                    r += 1;
+                    if x == (k, b) || r > n * t.size {
+                        break;
+                    }
+                }
+                if m % r != 0 {
+                    return false;
+                }
+            }
+        }
+    }
+    true
+}
+
+fn cover_case(ctx: &mut Ctx, t: &Tab, kind: Kind, n: usize, tab: &[usize], tags: &str) {
     ctx.case(
-        "cover",
-        tags,
+        &kind.op("cover"),
+        &format!("{tags} {}", kind.tag()),
         || format!("{} {} {}", t.enc(), n, enc_list(tab)),
         || {
-            let ds = t.to_partial_dsym();
             let (dim, size) = (t.dim, t.size);
-            let c = cover(&ds, n, |k, i, d| tab[(k * (dim + 1) + i) * size + (d - 1)]);
+            let c = on_sym!(t, kind, |ds| cover(&ds, n, |k, i, d| tab[(k * (dim + 1) + i) * size + (d - 1)]));
             enc_sym(&c)
         },
     );
 }
 
-fn cover_cases(ctx: &mut Ctx, t: &Tab, rng: &mut Rng, max_sheets: usize, cap: usize, base_tag: &str) {
+fn cover_cases(ctx: &mut Ctx, t: &Tab, kinds: &[Kind], rng: &mut Rng, max_sheets: usize, cap: usize, base_tag: &str) {
     for n in 0..=max_sheets {
         if n == 0 {
-            cover_case(ctx, t, 0, &[], &format!("nt {base_tag} sheets=0 sheetmap=none"));
+            for &kind in kinds {
+                cover_case(ctx, t, kind, 0, &[], &format!("nt {base_tag} sheets=0 sheetmap=none"));
+            }
             continue;
         }
         let maps = compatible_sheet_maps(t, n, cap, rng);
         let nt = if n >= 2 { "nt " } else { "" };
         for m in &maps {
-            cover_case(ctx, t, n, m, &format!("{nt}{base_tag} sheets={n} sheetmap=compatible"));
+            let premise = if premise_holds(t, n, m) { "premise=holds" } else { "premise=violated" };
+            for &kind in kinds {
+                cover_case(ctx, t, kind, n, m, &format!("{nt}{base_tag} sheets={n} sheetmap=compatible {premise}"));
+            }
         }
         // incompatible maps: one entry of a compatible map changed / fully random tables
         let nbad = if n == 1 { 2 } else { 6 };
@@ -254,7 +346,9 @@ fn cover_cases(ctx: &mut Ctx, t: &Tab, rng: &mut Rng, max_sheets: usize, cap: us
                 m[k] = n + rng.below(3);
             }
             if !is_compatible(t, n, &m) {
-                cover_case(ctx, t, n, &m, &format!("nt {base_tag} sheets={n} sheetmap=incompatible"));
+                for &kind in kinds {
+                    cover_case(ctx, t, kind, n, &m, &format!("nt {base_tag} sheets={n} sheetmap=incompatible"));
+                }
                 made += 1;
             }
         }
@@ -263,22 +357,24 @@ fn cover_cases(ctx: &mut Ctx, t: &Tab, rng: &mut Rng, max_sheets: usize, cap: us
 
 // ---------------------------------------------------------------------------------
 
-fn oriented_case(ctx: &mut Ctx, t: &Tab, tags: &str) {
-    ctx.case("oriented", tags, || t.enc(), || enc_sym(&oriented_cover(&t.to_partial_dsym())));
+fn oriented_case(ctx: &mut Ctx, t: &Tab, kind: Kind, tags: &str) {
+    ctx.case(&kind.op("oriented"), &format!("{tags} {}", kind.tag()), || t.enc(), || {
+        enc_sym(&on_sym!(t, kind, |ds| oriented_cover(&ds)))
+    });
 }
 
-fn covers_case(ctx: &mut Ctx, t: &Tab, k: usize, count: bool, tags: &str) {
+fn covers_case(ctx: &mut Ctx, t: &Tab, kind: Kind, k: usize, count: bool, tags: &str) {
     if !ctx.peek_mine() {
         ctx.skip();
         return;
     }
-    let gd = group_data(t, |g| coset_tables(g.nr_generators(), &g.relators, k).collect());
+    let gd = group_data(t, kind, |g| coset_tables(g.nr_generators(), &g.relators, k).collect());
     ctx.case(
-        "covers",
-        tags,
+        &kind.op("covers"),
+        &format!("{tags} {}", kind.tag()),
         || format!("{} {} {} {}", t.enc(), k, if count { 1 } else { 0 }, gd.as_deref().unwrap_or(NO_GROUP)),
         || {
-            let cs = covers(&t.to_partial_dsym(), k);
+            let cs = on_sym!(t, kind, |ds| covers(&ds, k));
             let mut s = cs.len().to_string();
             for c in &cs {
                 s.push(' ');
@@ -305,39 +401,54 @@ fn covers_nocount_case(ctx: &mut Ctx, t: &Tab, k: usize, cap: usize, tags: &str)
     if ntables > cap {
         ctx.case("covers_skipped", tags, || format!("{} {}", t.enc(), k), || ntables.to_string());
     } else {
-        covers_case(ctx, t, k, false, tags);
+        covers_case(ctx, t, PK, k, false, tags);
     }
 }
 
-fn subgroup_case(ctx: &mut Ctx, t: &Tab, subs: &[Vec<isize>], tags: &str) {
+fn subgroup_case(ctx: &mut Ctx, t: &Tab, kind: Kind, subs: &[Vec<isize>], tags: &str) {
     if !ctx.peek_mine() {
         ctx.skip();
         return;
     }
     let sw: Vec<FreeWord> = subs.iter().map(|w| FreeWord::new(w.iter().cloned())).collect();
-    let gd = group_data(t, |g| vec![coset_table(g.nr_generators(), &g.relators, &sw)]);
+    let gd = group_data(t, kind, |g| vec![coset_table(g.nr_generators(), &g.relators, &sw)]);
+    // every other case calls `cover_for_table` directly (op `table`), with the table and the edge
+    // words the library computes for this base (what `subgroup_cover` does internally); there the
+    // numbering of the sheets is determined by the inputs and the comparison with the model is exact,
+    // whereas `subgroup_cover` / `finite_universal_cover` / `covers` are compared up to isomorphism
+    // over the base
+    let direct = subs.iter().map(|w| w.len()).sum::<usize>() % 2 == 1;
     ctx.case(
-        "subgroup",
-        tags,
+        &kind.op(if direct { "table" } else { "subgroup" }),
+        &format!("{tags} {} call={}", kind.tag(), if direct { "cover_for_table" } else { "subgroup_cover" }),
         || format!("{} {} {}", t.enc(), enc_lists(subs), gd.as_deref().unwrap_or(NO_GROUP)),
-        || enc_sym(&subgroup_cover(&t.to_partial_dsym(), &sw)),
+        || {
+            enc_sym(&on_sym!(t, kind, |ds| if direct {
+                let g = fundamental_group(&ds);
+                let table = coset_table(g.nr_generators(), &g.relators, &sw);
+                cover_for_table(&ds, &table, &g.edge_to_word)
+            } else {
+                subgroup_cover(&ds, &sw)
+            }))
+        },
     );
 }
 
-fn universal_cases(ctx: &mut Ctx, t: &Tab, tags: &str) {
+fn universal_cases(ctx: &mut Ctx, t: &Tab, kind: Kind, tags: &str) {
+    let tags = &format!("{tags} {}", kind.tag());
     if ctx.peek_mine() {
-        let gd = group_data(t, |g| vec![coset_table(g.nr_generators(), &g.relators, &vec![])]);
+        let gd = group_data(t, kind, |g| vec![coset_table(g.nr_generators(), &g.relators, &vec![])]);
         ctx.case(
-            "universal",
+            &kind.op("universal"),
             tags,
             || format!("{} 0 {}", t.enc(), gd.as_deref().unwrap_or(NO_GROUP)),
-            || enc_sym(&finite_universal_cover(&t.to_partial_dsym())),
+            || enc_sym(&on_sym!(t, kind, |ds| finite_universal_cover(&ds))),
         );
     } else {
         ctx.skip();
     }
-    ctx.case("pi1_universal", tags, || t.enc(), || {
-        let c = finite_universal_cover(&t.to_partial_dsym());
+    ctx.case(&kind.op("pi1_universal"), tags, || t.enc(), || {
+        let c = on_sym!(t, kind, |ds| finite_universal_cover(&ds));
         let g = fundamental_group(&c);
         let rels: Vec<Vec<isize>> = g.relators.iter().map(word_letters).collect();
         format!("{} {}", g.nr_generators(), enc_lists(&rels))
@@ -437,7 +548,8 @@ fn main() {
     //      high-numbered live row and `subgroup_cover` returns 3 chambers with m01 = 2
     if WITNESS {
         let a4 = parse_symbol("<1.1:1 3:1,1,1,1:3,3,3>");
-        subgroup_case(&mut ctx, &a4, &[vec![-1], vec![3, 2, -4, -3, 2]], "nt regress spherical dim=3 size=1");
+        subgroup_case(&mut ctx, &a4, PK, &[vec![-1], vec![3, 2, -4, -3, 2]], "nt regress spherical dim=3 size=1");
+        subgroup_case(&mut ctx, &a4, SK, &[vec![-1], vec![3, 2, -4, -3, 2]], "nt regress spherical dim=3 size=1");
     }
 
     // (1) connected complete symbols: oriented cover, covers up to k sheets, `cover` with
@@ -458,7 +570,8 @@ fn main() {
                 };
                 for (si, s) in syms.iter().enumerate() {
                     let nt = if s.to_partial_dset_is_oriented() { "" } else { "nt " };
-                    oriented_case(&mut ctx, s, &format!("{nt}{tag}"));
+                    oriented_case(&mut ctx, s, PK, &format!("{nt}{tag}"));
+                    oriented_case(&mut ctx, s, SK, &format!("{nt}{tag}"));
                     // covers: the oracle is a brute-force search over sheet permutations
                     let k = if th {
                         if n <= 2 { 5 } else if n <= 4 { 4 } else { 3 }
@@ -468,7 +581,10 @@ fn main() {
                         3
                     };
                     let k = if dim == 3 { k.min(3) } else { k };
-                    covers_case(&mut ctx, s, k, true, &format!("nt {tag} k={k}"));
+                    covers_case(&mut ctx, s, PK, k, true, &format!("nt {tag} k={k}"));
+                    // (the count oracle is the expensive clause: on the larger symbols of the thorough
+                    // tier the SimpleDSym twin keeps every other clause and the exact model comparison)
+                    covers_case(&mut ctx, s, SK, k, !th || n <= 3, &format!("nt {tag} k={k}"));
                     // explicit sheet maps on the smallest symbols
                     if si == 0 || n == 1 {
                         let (ms, cap) = if n <= 2 {
@@ -481,7 +597,7 @@ fn main() {
                         // larger symbols: a seeded sample of the D-sets only
                         let pick = n <= 3 || (th && n == 4) || rng.chance(1, if th { 24 } else { 40 });
                         if pick {
-                            cover_cases(&mut ctx, s, &mut rng, ms, cap, &tag);
+                            cover_cases(&mut ctx, s, &[PK, SK], &mut rng, ms, cap, &tag);
                         }
                     }
                 }
@@ -506,12 +622,16 @@ fn main() {
                     continue;
                 }
                 let tag = format!("nt spherical dim=2 size={}", n);
-                universal_cases(&mut ctx, s, &tag);
+                universal_cases(&mut ctx, s, PK, &tag);
+                universal_cases(&mut ctx, s, SK, &tag);
                 let ng = nr_generators(s);
                 let subsets = subgroup_gens(ng, 2, if th { 3 } else { 2 }, &mut rng);
                 for (k, subs) in subsets.iter().enumerate() {
                     if n <= 2 || (th && n <= 3) || k % (if n >= 5 { 12 } else { 4 }) == 0 {
-                        subgroup_case(&mut ctx, s, subs, &tag);
+                        subgroup_case(&mut ctx, s, PK, subs, &tag);
+                        if k % 2 == 0 {
+                            subgroup_case(&mut ctx, s, SK, subs, &tag);
+                        }
                     }
                 }
             }
@@ -532,10 +652,12 @@ fn main() {
         list.push(two_chambers_swapped(3, &[3, 3, 3]));
         for t in &list {
             let tag = format!("nt spherical dim=3 size={}", t.size);
-            universal_cases(&mut ctx, t, &tag);
+            universal_cases(&mut ctx, t, PK, &tag);
+            universal_cases(&mut ctx, t, SK, &tag);
             let ng = nr_generators(t);
             for subs in subgroup_gens(ng, 1, 2, &mut rng) {
-                subgroup_case(&mut ctx, t, &subs, &tag);
+                subgroup_case(&mut ctx, t, PK, &subs, &tag);
+                subgroup_case(&mut ctx, t, SK, &subs, &tag);
             }
         }
     }
@@ -551,9 +673,11 @@ fn main() {
             let p = random_perm1(&mut rng, n);
             let s2 = s.renumbered(&p);
             let tag = format!("nt random dim={} size={}", dim, n.min(12));
-            oriented_case(&mut ctx, &s, &tag);
-            oriented_case(&mut ctx, &s2, &tag);
-            covers_case(&mut ctx, &s2, 2, true, &format!("{tag} k=2"));
+            oriented_case(&mut ctx, &s, PK, &tag);
+            oriented_case(&mut ctx, &s2, PK, &tag);
+            oriented_case(&mut ctx, &s2, SK, &tag);
+            covers_case(&mut ctx, &s2, PK, 2, true, &format!("{tag} k=2"));
+            covers_case(&mut ctx, &s, SK, 2, true, &format!("{tag} k=2"));
         }
     }
     // (5) covers(ds,k) beyond the reach of the count oracle (count clause OFF): every entry
@@ -602,18 +726,19 @@ fn main() {
             for t in dsets(2, n, true, true, false) {
                 let k = if n == 3 { 4 } else { k2 };
                 for s in all_degrees(&t, 6, usize::MAX, &mut rng) {
-                    covers_case(&mut ctx, &s, k, true, &format!("nt degrees dim=2 size={} k={}", n, k));
+                    covers_case(&mut ctx, &s, PK, k, true, &format!("nt degrees dim=2 size={} k={}", n, k));
                 }
             }
         }
         for t in dsets(3, 2, true, true, false) {
             for s in all_degrees(&t, 4, if th { 120 } else { 24 }, &mut rng) {
-                covers_case(&mut ctx, &s, 4, true, "nt degrees dim=3 size=2 k=4");
+                covers_case(&mut ctx, &s, PK, 4, true, "nt degrees dim=3 size=2 k=4");
             }
         }
         for txt in ["<1.1:2:2,2,2:4,3>", "<1.1:2:2,2,2:4,4>", "<1.1:2 3:2,2,2,2:4,2,3>"] {
             let t = parse_symbol(txt);
-            covers_case(&mut ctx, &t, 4, true, &format!("nt regress canonicity dim={} size=2 k=4", t.dim));
+            covers_case(&mut ctx, &t, PK, 4, true, &format!("nt regress canonicity dim={} size=2 k=4", t.dim));
+            covers_case(&mut ctx, &t, SK, 4, true, &format!("nt regress canonicity dim={} size=2 k=4", t.dim));
         }
         // S4 = rotation group of the cube: classes of subgroups by index (tools/c05_known_counts.py)
         let mut known = vec![0usize; 24];
@@ -680,12 +805,187 @@ fn main() {
                             .collect()
                     })
                     .collect();
-                subgroup_case(&mut ctx, t, &subs, &tag);
+                subgroup_case(&mut ctx, t, if k % 5 == 4 { SK } else { PK }, &subs, &tag);
             }
         }
     }
+    disconnected_bases(&mut ctx, th);
+    generated_bases(&mut ctx, th);
     ctx.finish();
 
+}
+
+// ---------------------------------------------------------------------------------
+// (8) bases with SEVERAL components (outside the quantifier of the property).  The library's
+//     fundamental_group then presents the free product of the groups of the components, covers()
+//     lists one cover per conjugacy class of subgroups of that free product, and a cover is in
+//     general not connected over a component.  Ops `…_dc`: every covering clause except
+//     connectedness, "connected after joining each sheet across the components", count against
+//     the oracle with a spanning forest, exact comparison with the models.
+
+/// disjoint union: `b` renumbered after `a`
+fn disjoint_union(a: &Tab, b: &Tab) -> Tab {
+    assert_eq!(a.dim, b.dim);
+    let (n, dim) = (a.size + b.size, a.dim);
+    let mut t = Tab { size: n, dim, op: vec![vec![0; n + 1]; dim + 1], v: vec![vec![0; n + 1]; dim] };
+    for i in 0..=dim {
+        for d in 1..=a.size {
+            t.op[i][d] = a.op[i][d];
+        }
+        for d in 1..=b.size {
+            t.op[i][a.size + d] = a.size + b.op[i][d];
+        }
+    }
+    for i in 0..dim {
+        for d in 1..=a.size {
+            t.v[i][d] = a.v[i][d];
+        }
+        for d in 1..=b.size {
+            t.v[i][a.size + d] = b.v[i][d];
+        }
+    }
+    t
+}
+
+fn disconnected_bases(ctx: &mut Ctx, th: bool) {
+    let mut rng = ctx.rng(58);
+    // (8a) exhaustive: every complete tuple of commuting involutions with at least two components
+    //      (all numberings), all branching assignments on the smallest
+    let bounds: &[(usize, usize)] = if th { &[(1, 4), (2, 4), (3, 3)] } else { &[(1, 3), (2, 3), (3, 2)] };
+    for &(dim, nmax) in bounds {
+        for n in 2..=nmax {
+            for t in dsets(dim, n, true, false, false).iter().filter(|t| !t.is_connected()) {
+                let tag = format!("dim={} size={}", dim, n);
+                let syms: Vec<Tab> = if n <= 2 {
+                    all_vs(t, &[1, 2, 3])
+                } else if n == 3 && dim <= 2 {
+                    all_vs(t, &[1, 3])
+                } else {
+                    (0..if th { 3 } else { 1 }).map(|_| random_vs(t, &mut rng, &[1, 2, 3, 4, 6])).collect()
+                };
+                for (si, s) in syms.iter().enumerate() {
+                    oriented_case(ctx, s, DCP, &format!("nt {tag}"));
+                    oriented_case(ctx, s, DCS, &format!("nt {tag}"));
+                    // the count oracle enumerates one sheet permutation per free edge: keep k small
+                    let k = if n <= 2 && dim <= 2 { 3 } else { 2 };
+                    covers_case(ctx, s, DCP, k, true, &format!("nt {tag} k={k}"));
+                    if si % 2 == 0 {
+                        covers_case(ctx, s, DCS, k, true, &format!("nt {tag} k={k}"));
+                    }
+                    if si == 0 {
+                        cover_cases(ctx, s, &[DCP, DCS], &mut rng, 2, if th { 24 } else { 8 }, &tag);
+                    }
+                }
+            }
+        }
+    }
+    // (8b) two copies of S²(3,3) (group Z3 * Z3), dimension 2, and its one-dimensional analogue:
+    //      covers(ds, 3) has 5 entries, the last two isomorphic as coverings of ds (independent
+    //      sheet renumbering over the two components) but belonging to non-conjugate subgroups
+    for txt in ["<1.1:8:2 4 6 8,2 4 6 8,3 4 7 8:3 3 3 3,2 2>", "<1.1:4 1:2 4,2 4:3 3>"] {
+        let t = parse_symbol(txt);
+        let tag = format!("nt regress freeproduct dim={} size={}", t.dim, t.size);
+        covers_case(ctx, &t, DCP, 3, true, &format!("{tag} k=3"));
+        covers_case(ctx, &t, DCS, 3, true, &format!("{tag} k=3"));
+        oriented_case(ctx, &t, DCP, &tag);
+    }
+    // (8c) a spherical symbol together with simply connected components: the free product is the
+    //      finite group of the spherical component, so finite_universal_cover and subgroup_cover
+    //      return; the universal cover consists of the universal cover of that component and |G|
+    //      copies of each of the others, and its fundamental group is trivial
+    {
+        let sphere2 = two_chambers_swapped(2, &[1, 1]);
+        let sphere3 = two_chambers_swapped(3, &[1, 1, 1]);
+        let mut bases: Vec<Tab> = vec![];
+        for n in 1..=(if th { 3 } else { 2 }) {
+            for t in dsets(2, n, true, true, false) {
+                let vals: &[usize] = if n <= 2 { &[1, 2, 3, 4, 5] } else { &[1, 2, 3, 5] };
+                for s in all_vs(&t, vals) {
+                    if curvature(&s).0 > 0 {
+                        bases.push(disjoint_union(&s, &sphere2));
+                        if bases.len() % 3 == 0 {
+                            bases.push(disjoint_union(&sphere2, &s));
+                        }
+                        if bases.len() % 7 == 0 {
+                            bases.push(disjoint_union(&disjoint_union(&sphere2, &s), &sphere2));
+                        }
+                    }
+                }
+            }
+        }
+        bases.push(disjoint_union(&one_chamber(3, &[3, 3, 3]), &sphere3));
+        bases.push(disjoint_union(&sphere3, &one_chamber(3, &[3, 3, 2])));
+        bases.push(disjoint_union(&one_chamber(3, &[2, 2, 2]), &sphere3));
+        bases.push(disjoint_union(&two_chambers_swapped(3, &[3, 3, 3]), &sphere3));
+        if th {
+            bases.push(disjoint_union(&one_chamber(3, &[4, 3, 3]), &sphere3));
+        }
+        for (j, t) in bases.iter().enumerate() {
+            let tag = format!("nt spherical dim={} size={}", t.dim, t.size);
+            let kind = if j % 3 == 1 { DCS } else { DCP };
+            universal_cases(ctx, t, kind, &tag);
+            let ng = nr_generators(t);
+            let subsets = subgroup_gens(ng, if t.dim == 2 { 2 } else { 1 }, 2, &mut rng);
+            for (k, subs) in subsets.iter().enumerate() {
+                if k % 3 == 0 {
+                    subgroup_case(ctx, t, kind, subs, &tag);
+                }
+            }
+        }
+    }
+    // (8d) seeded unions of two connected symbols with 1-4 chambers each (and renumberings that
+    //      interleave the components): oriented cover, covers with k = 2 (count oracle on)
+    let nrand = if th { 300 } else { 50 };
+    for j in 0..nrand {
+        let dim = 2 + j % 2;
+        let (na, nb) = (1 + rng.below(if dim == 3 { 2 } else { 4 }), 1 + rng.below(if dim == 3 { 2 } else { 3 }));
+        if let (Some(a), Some(b)) = (random_dset(&mut rng, dim, na, true), random_dset(&mut rng, dim, nb, true)) {
+            let u = disjoint_union(&random_vs(&a, &mut rng, &[1, 2, 3, 4, 6]), &random_vs(&b, &mut rng, &[1, 2, 3, 4, 6]));
+            let p = random_perm1(&mut rng, u.size);
+            let u2 = u.renumbered(&p);
+            let tag = format!("nt random dim={} size={}", dim, u.size);
+            oriented_case(ctx, &u2, if j % 2 == 0 { DCP } else { DCS }, &tag);
+            covers_case(ctx, &u2, if j % 3 == 0 { DCS } else { DCP }, 2, true, &format!("{tag} k=2"));
+        }
+    }
+}
+
+// ---------------------------------------------------------------------------------
+// (9) bases the library's own generators yield (`DSets::new(2, n)` x `DSyms::new(&dset, geometry)`),
+//     handed to the cover constructors as the `SimpleDSym` objects they are (ops `…_s`)
+
+fn generated_bases(ctx: &mut Ctx, th: bool) {
+    let mut rng = ctx.rng(59);
+    let nmax = if th { 5 } else { 4 };
+    for dset in DSets::new(2, nmax) {
+        let n = dset.size();
+        for (gi, g) in [Geometries::Spherical, Geometries::Euclidean, Geometries::Hyperbolic].into_iter().enumerate() {
+            for (j, ds) in DSyms::new(&dset, g).enumerate() {
+                if j >= (if th { 12 } else { 4 }) {
+                    break;
+                }
+                let t = Tab::from_dsym(&ds);
+                let kind = Kind { dc: false, rep: Rep::N(&ds) };
+                let tag = format!("nt generated dim=2 size={}", n);
+                oriented_case(ctx, &t, kind, &tag);
+                let k = if n <= 2 { 3 } else { 2 };
+                covers_case(ctx, &t, kind, k, true, &format!("{tag} k={k}"));
+                if gi == 0 {
+                    // spherical symbols have a finite group (the generator yields good orbifolds only)
+                    universal_cases(ctx, &t, kind, &format!("{tag} spherical"));
+                    let ng = nr_generators(&t);
+                    for (k, subs) in subgroup_gens(ng, 1, 1, &mut rng).iter().enumerate() {
+                        if k % 2 == 0 {
+                            subgroup_case(ctx, &t, kind, subs, &format!("{tag} spherical"));
+                        }
+                    }
+                }
+                if j == 0 && n <= 3 {
+                    cover_cases(ctx, &t, &[kind], &mut rng, 2, 6, &tag);
+                }
+            }
+        }
+    }
 }
 
 /// every branching assignment with all degrees m = r*v <= max_m (up to `cap` symbols, a seeded
@@ -742,7 +1042,7 @@ fn covers_known_case(ctx: &mut Ctx, t: &Tab, k: usize, known: &[usize], tags: &s
         ctx.skip();
         return;
     }
-    let gd = group_data(t, |g| coset_tables(g.nr_generators(), &g.relators, k).collect());
+    let gd = group_data(t, PK, |g| coset_tables(g.nr_generators(), &g.relators, k).collect());
     ctx.case(
         "covers",
         tags,
